@@ -263,7 +263,7 @@ Section AdminCalls.
     set (rn := search_node s v n SlLstat) in *.
     destruct (_ && _); [cl0|]. destruct (_ && _); [cl0|].
     destruct (sr_parent ro) as [op|] eqn:Hop; [|cl0]. destruct (sr_child ro) as [oc|]; [|cl0].
-    destruct (sr_parent rn) as [np|] eqn:Hnp; [|cl0].
+    destruct (sr_parent rn) as [np|] eqn:Hnp; [|destruct (is_not_exist (sr_err rn)); cl0].
     rewrite (admin_perm_on_dir _ _ _ _ Ha (F1 _ eq_refl)), (admin_perm_on_dir _ _ _ _ Ha (G1 _ eq_refl)). cbn [negb]. rewrite andb_false_r.
     destruct (get (f_heap s) oc) as [[ch m|d k i m|t m]|].
     - destruct (_ && _).
@@ -283,7 +283,7 @@ Section AdminCalls.
     destruct (search_node_facts s v n SlLstat Hrd Hvd) as (G1 & G2 & G3 & G4). specialize (G3 Ha).
     set (rn := search_node s v n SlLstat) in *.
     destruct (negb (is_not_exist _)); [destruct (win v); cl0|]. destruct (negb (pi_is_last _)); [cl0|].
-    destruct (sr_parent rn) as [np|] eqn:Hnp; [|cl0].
+    destruct (sr_parent rn) as [np|] eqn:Hnp; [|destruct (is_not_exist (sr_err rn)); cl0].
     rewrite (admin_perm_on_dir _ _ _ _ Ha (G1 _ eq_refl)). cbn [negb].
     destruct (get (f_heap s) oc) as [[ch m|d k i m|t m]|]; cl0.
   Qed.
